@@ -89,7 +89,7 @@ type Engine struct {
 	LoadSeconds float64
 }
 
-func (e *Engine) Results() *Results { return e.res }
+func (e *Engine) Results() *Results  { return e.res }
 func (e *Engine) Prog() *ssa.Program { return e.prog }
 
 func NewEngine(cfg Config) (*Engine, error) {
